@@ -13,6 +13,7 @@ class C11(Prop):
     driver = 'drv_C11'
     model = 'C11'
     level = 'proof'
+    search_scale = 2            # widened search after a broken proof / correspondence: bounded volume per seed
     level_text = ('Machine-checked Coq theorems about (1) the HDF5 identifier table of the open file with handle copies as reference '
                   'counts and FileHDF5::close transcribed literally (close the three root groups, list the group/dataset/datatype ids, '
                   'close each H5Iget_ref times, close the file id): after EVERY history of handle operations - any number of live handles '
